@@ -5,6 +5,7 @@ import (
 	"go/constant"
 	"go/token"
 	"go/types"
+	"sort"
 	"strings"
 
 	"golang.org/x/tools/go/ssa"
@@ -220,10 +221,284 @@ func (c *Cut) AddEdge(e ...Edge) *Cut {
 	return c
 }
 
+// normCond strips negations from a branch condition: it returns the underlying value and whether
+// the condition is its negation.
+func normCond(v ssa.Value) (ssa.Value, bool) {
+	neg := false
+	for {
+		u, ok := v.(*ssa.UnOp)
+		if !ok || u.Op != token.NOT {
+			return v, neg
+		}
+		v, neg = u.X, !neg
+	}
+}
+
+// onCycle reports whether block b can reach itself.
+func onCycle(b *ssa.BasicBlock) bool {
+	seen := map[*ssa.BasicBlock]bool{}
+	stack := append([]*ssa.BasicBlock{}, b.Succs...)
+	for len(stack) > 0 {
+		x := stack[len(stack)-1]
+		stack = stack[:len(stack)-1]
+		if x == b {
+			return true
+		}
+		if seen[x] {
+			continue
+		}
+		seen[x] = true
+		stack = append(stack, x.Succs...)
+	}
+	return false
+}
+
+// onceEvaluated: the value is fixed for the activation (parameter, free variable) or its defining
+// block lies on no cycle.
+func onceEvaluated(v ssa.Value) bool {
+	in, ok := v.(ssa.Instruction)
+	if !ok {
+		return true
+	}
+	return !onCycle(in.Block())
+}
+
+// correlatedConds returns the branch conditions of fn that are tested by more than one `if` and
+// are evaluated at most once per activation (their defining block lies on no cycle). An SSA value
+// is immutable, so a path that takes the true side of one such test and the false side of
+// another is infeasible; Reach prunes it.
+func correlatedConds(fn *ssa.Function) map[ssa.Value]bool {
+	uses := map[ssa.Value]int{}
+	for _, b := range fn.Blocks {
+		if ifi, ok := b.Instrs[len(b.Instrs)-1].(*ssa.If); ok {
+			base, _ := normCond(ifi.Cond)
+			if _, isConst := base.(*ssa.Const); !isConst {
+				uses[base]++
+			}
+		}
+	}
+	out := map[ssa.Value]bool{}
+	for v, n := range uses {
+		if n >= 2 && onceEvaluated(v) {
+			out[v] = true
+		}
+	}
+	return out
+}
+
+// Known is what a path has established about boolean SSA values.
+type Known map[ssa.Value]bool
+
 // Reach searches forward from a point for an instruction satisfying target without crossing
 // the cut. It returns the instruction found and the block path to it, or nil.
 // A cut instruction blocks the path *at* that instruction (a target that is itself cut is not reached).
+// Paths that test the same once-evaluated SSA condition with contradictory outcomes are pruned, and
+// boolean phis (the lowering of && and ||) carry the constant or the tested value they receive on
+// the path.
 func Reach(from Point, target func(ssa.Instruction) bool, cut *Cut) (ssa.Instruction, []*ssa.BasicBlock) {
+	return ReachK(from, func(in ssa.Instruction, _ Known) bool { return target(in) }, cut, nil, nil)
+}
+
+// ReachEdge is Reach from the target of a CFG edge, with the outcome of the edge's own branch
+// condition known (so that a later test of the same value is followed on the same side only).
+func ReachEdge(e Edge, target func(ssa.Instruction) bool, cut *Cut) (ssa.Instruction, []*ssa.BasicBlock) {
+	var known Known
+	if ifi, ok := e.From.Instrs[len(e.From.Instrs)-1].(*ssa.If); ok {
+		if base, neg := normCond(ifi.Cond); correlatedConds(e.From.Parent())[base] {
+			known = Known{base: (e.Succ == 0) != neg}
+		}
+	}
+	return ReachK(Point{e.To(), 0}, func(in ssa.Instruction, _ Known) bool { return target(in) }, cut, known, nil)
+}
+
+// ReachK is Reach with a target that also sees what the path has established about the tracked
+// boolean values: every once-evaluated condition tested more than once, the values in track (which
+// must be once-evaluated; others are ignored), and boolean phis.
+func ReachK(from Point, target func(ssa.Instruction, Known) bool, cut *Cut, seed Known, track []ssa.Value) (ssa.Instruction, []*ssa.BasicBlock) {
+	type alias struct {
+		base ssa.Value
+		neg  bool
+	}
+	type item struct {
+		p     Point
+		path  []*ssa.BasicBlock
+		known Known
+		al    map[ssa.Value]alias
+	}
+	corr := correlatedConds(from.B.Parent())
+	for _, v := range track {
+		if base, _ := normCond(v); onceEvaluated(base) {
+			corr[base] = true
+		}
+	}
+	sig := func(b *ssa.BasicBlock, known Known, al map[ssa.Value]alias) string {
+		if len(known) == 0 && len(al) == 0 {
+			return fmt.Sprint(b.Index)
+		}
+		var ks []string
+		for v, val := range known {
+			ks = append(ks, fmt.Sprintf("%s=%v", v.Name(), val))
+		}
+		for v, a := range al {
+			ks = append(ks, fmt.Sprintf("%s~%s%v", v.Name(), a.base.Name(), a.neg))
+		}
+		sort.Strings(ks)
+		return fmt.Sprint(b.Index, ks)
+	}
+	visited := map[string]bool{}
+	queue := []item{{from, []*ssa.BasicBlock{from.B}, seed, nil}}
+	first := true
+	for len(queue) > 0 {
+		if len(visited) > 40000 {
+			// state space too large for value tracking: fall back to the plain (coarser, still sound) search
+			return reachPlain(from, func(in ssa.Instruction) bool { return target(in, nil) }, cut)
+		}
+		it := queue[0]
+		queue = queue[1:]
+		if it.p.I == 0 && !first {
+			k := sig(it.p.B, it.known, it.al)
+			if visited[k] {
+				continue
+			}
+			visited[k] = true
+		} else if it.p.I == 0 && first {
+			visited[sig(it.p.B, it.known, it.al)] = true
+		}
+		first = false
+		blocked := false
+		for i := it.p.I; i < len(it.p.B.Instrs); i++ {
+			in := it.p.B.Instrs[i]
+			if cut != nil && cut.Instrs[in] {
+				blocked = true
+				break
+			}
+			if target(in, it.known) {
+				return in, it.path
+			}
+		}
+		if blocked {
+			continue
+		}
+		var base ssa.Value
+		neg := false
+		if ifi, ok := it.p.B.Instrs[len(it.p.B.Instrs)-1].(*ssa.If); ok {
+			bv, n := normCond(ifi.Cond)
+			_, isPhi := bv.(*ssa.Phi)
+			_, have := it.known[bv]
+			if corr[bv] || have || (isPhi && bv.(*ssa.Phi).Block() == it.p.B) {
+				base, neg = bv, n
+			}
+		}
+		for si, s := range it.p.B.Succs {
+			if cut != nil && cut.Edges[Edge{it.p.B, si}] {
+				continue
+			}
+			if infeasibleEdge(it.p.B, si) {
+				continue
+			}
+			known := it.known
+			al := it.al
+			copied := false
+			cp := func() {
+				if copied {
+					return
+				}
+				copied = true
+				nk := Known{}
+				for k, v := range known {
+					nk[k] = v
+				}
+				known = nk
+				na := map[ssa.Value]alias{}
+				for k, v := range al {
+					na[k] = v
+				}
+				al = na
+			}
+			if base != nil {
+				val := (si == 0) != neg
+				if old, ok := it.known[base]; ok {
+					if old != val {
+						continue // contradicts what the path established
+					}
+				} else {
+					cp()
+					known[base] = val
+				}
+				if a, ok := it.al[base]; ok {
+					av := val != a.neg
+					if old, ok := known[a.base]; ok {
+						if old != av {
+							continue
+						}
+					} else if corr[a.base] {
+						cp()
+						known[a.base] = av
+					}
+				}
+			}
+			// a phi that only feeds this block's branch carries nothing further
+			for _, in := range it.p.B.Instrs {
+				phi, ok := in.(*ssa.Phi)
+				if !ok {
+					break
+				}
+				if refs := phi.Referrers(); refs != nil && len(*refs) == 1 {
+					if _, isIf := (*refs)[0].(*ssa.If); isIf {
+						if _, ok := known[phi]; ok {
+							cp()
+							delete(known, phi)
+						}
+						if _, ok := al[phi]; ok {
+							cp()
+							delete(al, phi)
+						}
+					}
+				}
+			}
+			// boolean phis of the successor take the value of their edge from this block
+			pi := -1
+			for i, p := range s.Preds {
+				if p == it.p.B {
+					pi = i
+				}
+			}
+			for _, in := range s.Instrs {
+				phi, ok := in.(*ssa.Phi)
+				if !ok {
+					break
+				}
+				bt, isB := phi.Type().Underlying().(*types.Basic)
+				if !isB || bt.Kind() != types.Bool || pi < 0 {
+					continue
+				}
+				cp()
+				delete(known, phi)
+				delete(al, phi)
+				e := phi.Edges[pi]
+				if c, isC := e.(*ssa.Const); isC && c.Value != nil && c.Value.Kind() == constant.Bool {
+					known[phi] = constant.BoolVal(c.Value)
+					continue
+				}
+				eb, en := normCond(e)
+				if v, ok := known[eb]; ok {
+					known[phi] = v != en
+				} else {
+					al[phi] = alias{eb, en}
+				}
+			}
+			if visited[sig(s, known, al)] {
+				continue
+			}
+			np := append(append([]*ssa.BasicBlock{}, it.path...), s)
+			queue = append(queue, item{Point{s, 0}, np, known, al})
+		}
+	}
+	return nil, nil
+}
+
+// reachPlain is the path-insensitive search (one visit per block).
+func reachPlain(from Point, target func(ssa.Instruction) bool, cut *Cut) (ssa.Instruction, []*ssa.BasicBlock) {
 	type item struct {
 		p    Point
 		path []*ssa.BasicBlock
@@ -261,10 +536,7 @@ func Reach(from Point, target func(ssa.Instruction) bool, cut *Cut) (ssa.Instruc
 			if cut != nil && cut.Edges[Edge{it.p.B, si}] {
 				continue
 			}
-			if infeasibleEdge(it.p.B, si) {
-				continue
-			}
-			if visited[s] {
+			if infeasibleEdge(it.p.B, si) || visited[s] {
 				continue
 			}
 			np := append(append([]*ssa.BasicBlock{}, it.path...), s)
